@@ -511,9 +511,16 @@ pub fn expand(rec: &Recipe) -> Collection {
     let mut samples = Vec::new();
     for (si, contigs) in raw_samples.into_iter().enumerate() {
         let stem: String = {
-            let alphabet = b"abcdefghijklmnopqrstuvwxyzABCDEFGHIJKLMNOPQRSTUVWXYZ0123456789_-";
+            // dots as in accession-style names (GCA_000001405.15): the file-name -> sample-name rule
+            // must treat `x.15.fa` and `x.15.fa.gz` alike
+            let alphabet = b"abcdefghijklmnopqrstuvwxyzABCDEFGHIJKLMNOPQRSTUVWXYZ0123456789_-....";
             let n = 1 + nr.below(8) as usize;
-            let body: String = (0..n).map(|_| alphabet[nr.below(alphabet.len() as u64) as usize] as char).collect();
+            let mut body: String = (0..n).map(|_| alphabet[nr.below(alphabet.len() as u64) as usize] as char).collect();
+            // keep the name itself free of a trailing FASTA / gzip extension (the rule would strip it)
+            let lower = body.to_ascii_lowercase();
+            if lower.ends_with('.') || lower.ends_with(".fa") || lower.ends_with(".fasta") || lower.ends_with(".fna") || lower.ends_with(".gz") {
+                body.push('x');
+            }
             format!("s{}{}", si, body)
         };
         let name = if rec.pansn { format!("{}#{}", stem, nr.below(3)) } else { stem };
